@@ -34,3 +34,7 @@ def run(ctx):
                                 "by predicate termination, whose per-LP final state digest was compared with the Lean sequential executor")
     # refinement of the concrete kernel to the abstract global Time Warp machine of the glue theorems, checked on small runs
     runlib.tw_matrix(ctx, 12, 400, salt=1)
+    # models that also call the floating-point numerical library (Normal, Poisson, Gamma, RandomRange ...; no Lean twin): the same
+    # model+seed under several configurations must end in the same states, and every rollback must reproduce the recorded digest
+    import random as _random
+    runlib.lib_matrix(ctx, _random.Random(ctx.seed * 77 + 1))
